@@ -40,7 +40,7 @@ def plan(tier):
 
 
 def required_counters(tier):
-    return ["vs_core", "vs_pandas", "series_obj", "frame_obj", "by_column", "by_array", "by_level", "by_mixed", "selection", "multiindex", "duplicate_index",
+    return ["vs_core", "vs_pandas", "series_obj", "frame_obj", "by_column", "by_array", "by_level", "by_mixed", "by_level_names", "by_level_name_before_column_name", "selection", "multiindex", "duplicate_index",
             "zeros_in_values", "iteration_checked"] + [f"m:{m}" for m in set(METHODS)]
 
 
@@ -85,6 +85,8 @@ def build(case):
         obj = df[valnames[0]]
         if form == "level":
             level = case["level"]
+        elif form == "names":
+            by = list(case["by_names"])
         elif form == "mixed":
             by = [df[keynames[0]].to_numpy()]
             level = case["level"]
@@ -92,7 +94,7 @@ def build(case):
             by = [df[kn] for kn in keynames]
         else:
             by = [df[kn].to_numpy() for kn in keynames]
-        if by is not None and len(by) == 1 and form != "mixed":
+        if by is not None and len(by) == 1 and form not in ("mixed", "names"):
             by = by[0]
         value_columns = [valnames[0]]
     else:
@@ -109,6 +111,9 @@ def build(case):
         elif form == "level":
             obj = df[valnames]
             level = case["level"]
+        elif form == "names":  # by = names of index levels and of columns, in any order
+            obj = df[valnames + [nm for nm in keynames if nm in case["by_names"]]]
+            by = list(case["by_names"])
         else:  # mixed: a column name and an index level
             obj = df[valnames + keynames[:1]]
             by = keynames[0]
@@ -127,6 +132,8 @@ def key_arrays(case, df, by, level):
     elif form == "level":
         lv = level if isinstance(level, list) else [level]
         keys = [df.index.get_level_values(l).to_numpy() for l in lv]
+    elif form == "names":
+        keys = [df[nm].to_numpy() if nm in df.columns else df.index.get_level_values(nm).to_numpy() for nm in by]
     else:
         keys = [df[keynames[0]].to_numpy()]
         lv = level if isinstance(level, list) else [level]
@@ -188,7 +195,9 @@ def check(case, ctx):
     ctx.count(f"m:{m}")
     df, obj, by, level, vcols = build(case)
     ctx.count("series_obj" if isinstance(obj, pd.Series) else "frame_obj")
-    ctx.count({"column": "by_column", "array": "by_array", "series": "by_array", "level": "by_level", "mixed": "by_mixed"}[case["by_form"]])
+    ctx.count({"column": "by_column", "array": "by_array", "series": "by_array", "level": "by_level", "mixed": "by_mixed", "names": "by_level_names"}[case["by_form"]])
+    if case["by_form"] == "names" and any(nm in df.columns for nm in by) and by[0] not in df.columns:
+        ctx.count("by_level_name_before_column_name")
     if case["index_kind"] == "multi":
         ctx.count("multiindex")
     if case["index_kind"] == "dup":
@@ -410,11 +419,11 @@ def gen_case(rng):
     obj = gen.pick(rng, ["series", "frame", "frame"])
     method = gen.pick(rng, METHODS)
     ik = gen.pick(rng, ["default", "perm", "dup", "str", "multi"])
-    form = gen.pick(rng, ["column", "array", "series", "level", "mixed"]) if obj == "frame" else gen.pick(rng, ["array", "series", "level", "mixed"])
+    form = gen.pick(rng, ["column", "array", "series", "level", "mixed", "names"]) if obj == "frame" else gen.pick(rng, ["array", "series", "level", "mixed"])  # (SeriesGroupBy documents by= as array-like: no level names there)
     case = {"n": n, "keycols": keycols, "valcols": valcols, "obj": obj, "method": method, "index_kind": ik, "by_form": form,
             "select": gen.pick(rng, ["none", "none", "one", "many"]) if obj == "frame" else "none", "window": int(rng.integers(1, 4)),
             "k": int(rng.integers(0, 4)), "aggfunc": gen.pick(rng, ["sum", "mean", "max", "min", "count"]), "noshrink": True}
-    if form in ("level", "mixed"):
+    if form in ("level", "mixed", "names"):
         ik = case["index_kind"] = gen.pick(rng, ["multi", "multi", "keyindex"])
     if ik == "perm":
         case["index_vals"] = [int(x) for x in rng.permutation(n) + 3]
@@ -434,6 +443,15 @@ def gen_case(rng):
         case["keycols"] = keycols[:1]
     if form == "mixed":
         case["keycols"] = keycols[:1]
+    if form == "names":
+        case["keycols"] = keycols[:1]
+        lv = ["L0", "L1"] if ik == "multi" else ["ix"]
+        pool = lv + (["key0"] if obj == "frame" else [])
+        k = int(rng.integers(1, len(pool) + 1))
+        names = [pool[int(i)] for i in rng.permutation(len(pool))[:k]]
+        if not any(nm in lv for nm in names):
+            names.insert(int(rng.integers(0, len(names) + 1)), lv[int(rng.integers(len(lv)))])
+        case["by_names"] = names
     if case["method"] == "nth":
         case["k"] = int(rng.integers(-3, 4))
     # the facade must hand min_periods through unchanged (None = window, 0 = no minimum)
